@@ -3,7 +3,6 @@ package main
 import (
 	"fmt"
 	"os"
-	"os/exec"
 	"regexp"
 	"strings"
 	"sync"
@@ -324,7 +323,7 @@ func runSkelModel(o *Options, res *Result) error {
 				errs[sh] = err
 				return
 			}
-			out, err := exec.Command("timeout", "1200", "coqc", "-Q", o.CoqDir, "DT", "-Q", dir, "SK", file).CombinedOutput()
+			out, err := coqcCmd("1200", "-Q", o.CoqDir, "DT", "-Q", dir, "SK", file).CombinedOutput()
 			if err != nil {
 				errs[sh] = fmt.Errorf("coqc on %s: %v\n%s", file, err, tail(string(out), 1200))
 				return
